@@ -1225,7 +1225,7 @@ def shared_source_shape(prog: Program) -> bool:
             return ("deep", id(e))
         if isinstance(e, Ref):
             d = decls.get(e.name)
-            if d is None or d.kind != "Signal" or is_input_decl(d):
+            if d is None or d.kind not in ("Signal", "Bundle") or is_input_decl(d):
                 return ("n", e.name)
             return key(d.e, depth + 1)
         if isinstance(e, Num):
@@ -1238,6 +1238,12 @@ def shared_source_shape(prog: Program) -> bool:
             return ("p", key(e.e, depth + 1), repr(e.ty))
         if isinstance(e, Cond):
             return ("?", key(e.c, depth + 1), key(e.v, depth + 1))
+        if isinstance(e, BLit):
+            return ("{}",) + tuple(key(x, depth + 1) for x in e.elems)
+        if isinstance(e, BSel):
+            return key(e.b, depth + 1)  # a selected member travels on the bundle's wire
+        if isinstance(e, (AnyOf, AllOf)):
+            return key(e.b, depth + 1)
         return ("x", repr(e))
 
     def operands(e):
@@ -1254,6 +1260,12 @@ def shared_source_shape(prog: Program) -> bool:
             return [e.l, e.r]
         if isinstance(e, (Un, Proj)):
             return [e.e]
+        if isinstance(e, BLit):
+            return list(e.elems)  # a wire merge joins all its members and every consumer of the bundle on one network
+        if isinstance(e, BSel):
+            return [e.b]
+        if isinstance(e, (AnyOf, AllOf)):
+            return [e.b]
         return []
 
     def visit(e):
